@@ -372,8 +372,12 @@ def seed_foreign(ws, root, pkgdir, kind):
                 open(os.path.join(bd, p), "w").write("stale")
             os.symlink("build", os.path.join(bd, "bin", "detect"))
     elif kind == "stale-descriptors-in-every-output-dir@composite":
+        # "every" = every output directory the run from the first composite's directory will write
+        # (the composite and its libcnb: dependency closure)
+        comp = [bp for bp in ws["buildpacks"] if bp["kind"] == "composite"][0]
+        wanted = closure(ws, [comp["id"]])
         for bp in ws["buildpacks"]:
-            if bp["kind"] == "other":
+            if bp["kind"] == "other" or bp["id"] not in wanted:
                 continue
             bd = os.path.join(base, bp["id"].replace("/", "_"))
             os.makedirs(bd, exist_ok=True)
